@@ -593,7 +593,6 @@ RULES = [
     ("Placeholder:prefix-glued-to-word", _at_placeholder),
     ("bigquery:quoted-path-split", _bigquery_path_split),
     ("parse_literal_uint:normalised", _uint_normalised),
-    ("OperateFunctionArg:qualified-name-truncated", _function_arg_name),
     ("redshift:bracket-subscript-vs-delimited-identifier", _redshift_bracket),
 ]
 # rules that compute their key (site-dependent)
